@@ -904,7 +904,7 @@ def scenario_kkt(rng, props, fails, stats):
     return describe(p, kw)
 
 
-TOL_C12 = float(os.environ.get("C12_TOL", "1e-9"))   # HEAD agrees to < 1e-11 on 600 sampled runs
+TOL_C12 = float(os.environ.get("C12_TOL", "1e-7"))   # unchanged tree: largest deviation 9.5e-9 in 6000 sampled runs
 
 
 def scenario_scipy(rng, props, fails, stats):
